@@ -1,13 +1,13 @@
 (* C04 - property theorems.  A connection is the list of the client's writes (segments);
    [run_impl svc segs] are the events the modelled code sends and how Handle ends,
    [expected svc stream] the reference reading of the byte stream.
-   C04_full is the property at full strength; it holds for the services with one persistent
-   reader and is refuted, with witnesses, for memcached storage commands, http pipelining,
-   http bodies and dns over UDP - outside those classes it is proved again. *)
+     C04_full svc          := forall segs, run_impl svc segs = expected svc (concat segs)
+     C04_full_datagram svc := forall d, run_impl svc [d] = expected svc d      (Proofs.v)
+   After the repairs 557c6c5, 3944024, 9bf6a1f, 4b4eb8c the full property holds for every
+   modelled service; cwmp (outside the pipelining quantifier) still creates one reader per
+   request and is covered by C04_outside_read_and_reader_loss only. *)
 From HT Require Import Common.Bytes C04.Model C04.Check C04.Proofs.
 Open Scope nat_scope.
-
-(* C04_full svc := forall segs, run_impl svc segs = expected svc (concat segs)   (Proofs.v) *)
 
 (* ---- the reader library: requests on a persistent reader are functions of the pending stream ---- *)
 Theorem C04_read_until_depends_on_stream_only : forall d r,
@@ -33,15 +33,15 @@ Theorem C04_persistent_reader_reads_the_stream : forall p segs,
   persistent p -> seg_obs p segs = str_obs p (concat segs) /\ seg_dropped p segs = [].
 Proof. exact persistent_reads_the_stream. Qed.
 
-(* general form for services with Reads and per-request readers: if the reference run never
-   needed a buffer-sensitive Read and no reader was dropped while it held bytes, the events
-   are the reference reading - whatever the segmentation *)
+(* general form for programs with Reads and per-request readers (cwmp): if the reference run
+   never needed a buffer-sensitive Read and no reader was dropped while it held bytes, the
+   events are the reference reading - whatever the segmentation *)
 Theorem C04_outside_read_and_reader_loss : forall p segs,
   str_clean p (concat segs) = true -> seg_dropped p segs = [] ->
   seg_obs p segs = str_obs p (concat segs).
 Proof. exact clean_lossless_obs. Qed.
 
-(* ---- services with one persistent reader: full property, all segmentations, pipelined or not ---- *)
+(* ---- stream services: full property, all segmentations, pipelined or lock-step ---- *)
 Theorem C04_ftp_full : C04_full SVC_FTP.
 Proof. exact ftp_run. Qed.
 
@@ -51,11 +51,32 @@ Proof. exact smtp_run. Qed.
 Theorem C04_redis_full : C04_full SVC_REDIS.
 Proof. exact redis_run. Qed.
 
+(* incl. storage commands and their data blocks *)
+Theorem C04_memcached_full : C04_full SVC_MEMCACHED.
+Proof. exact memcached_run. Qed.
+
+(* incl. pipelined requests and bodies split anywhere *)
+Theorem C04_http_full : C04_full SVC_HTTP.
+Proof. exact http_run. Qed.
+
+Theorem C04_docker_full : C04_full SVC_DOCKER.
+Proof. exact docker_run. Qed.
+
+Theorem C04_elasticsearch_full : C04_full SVC_ELASTIC.
+Proof. exact elastic_run. Qed.
+
 Theorem C04_eos_full : C04_full SVC_EOS.
 Proof. exact eos_run. Qed.
 
 Theorem C04_ethereum_full : C04_full SVC_ETHEREUM.
 Proof. exact ethereum_run. Qed.
+
+(* the programs behind these statements are persistent-reader programs *)
+Theorem C04_memcached_persistent : forall udp fuel, persistent (memcached_prog udp fuel).
+Proof. exact memcached_persistent. Qed.
+
+Theorem C04_http_persistent : forall cfg fuel, persistent (http_prog cfg false fuel).
+Proof. exact http_persistent. Qed.
 
 (* ftp spelled out: exactly one event per complete line, in the order sent, up to QUIT;
    the lines partition the stream; the fuel of run_impl/expected is never exhausted *)
@@ -70,53 +91,20 @@ Proof. exact lines_f_partition. Qed.
 Theorem C04_ftp_fuel_suffices : forall fuel s, length s < fuel -> snd (str_obs (ftp_prog fuel) s) = 0%N.
 Proof. exact ftp_fuel_enough. Qed.
 
-(* the reference readings used for memcached and the http family are themselves
-   segmentation independent (they are persistent-reader programs) *)
-Theorem C04_reference_memcached_persistent : forall udp fuel, persistent (memcached_prog true udp fuel).
-Proof. exact memcached_ideal_persistent. Qed.
-
-Theorem C04_reference_http_persistent : forall cfg fuel, persistent (http_prog cfg MODE_REF fuel).
-Proof. exact http_ideal_persistent. Qed.
-
-(* ---- datagram services: each datagram is decoded on its own, whatever its length ---- *)
-Theorem C04_tftp_each_datagram : forall d, run_impl SVC_TFTP [d] = expected SVC_TFTP d.
+(* ---- datagram services: each datagram is decoded and reported on its own, whatever its length ---- *)
+Theorem C04_tftp_each_datagram : C04_full_datagram SVC_TFTP.
 Proof. exact tftp_datagram. Qed.
 
-Theorem C04_counterstrike_each_datagram : forall d, run_impl SVC_CS [d] = expected SVC_CS d.
+Theorem C04_counterstrike_each_datagram : C04_full_datagram SVC_CS.
 Proof. exact cs_datagram. Qed.
 
-(* ---- defects of the code, with witnesses ---- *)
+Theorem C04_memcached_udp_each_datagram : C04_full_datagram SVC_MEMCACHED_UDP.
+Proof. exact memcached_udp_datagram. Qed.
 
-(* memcached storage command: two segmentations of one stream, different events *)
-Theorem C04_memcached_storage_refuted :
-  exists s1 s2, concat s1 = concat s2 /\ run_impl SVC_MEMCACHED s1 <> run_impl SVC_MEMCACHED s2 /\
-                run_impl SVC_MEMCACHED s1 <> expected SVC_MEMCACHED (concat s1) /\
-                run_impl SVC_MEMCACHED s2 <> expected SVC_MEMCACHED (concat s2).
-Proof. exact memcached_storage_refuted. Qed.
+Theorem C04_dns_each_datagram : C04_full_datagram SVC_DNS.
+Proof. exact dns_datagram. Qed.
 
-(* http: two requests in one write give one event, in two writes two events *)
-Theorem C04_http_pipelined_refuted :
-  exists s1 s2, concat s1 = concat s2 /\
-    length (fst (run_impl SVC_HTTP s1)) = 1 /\ length (fst (run_impl SVC_HTTP s2)) = 2 /\
-    length (fst (expected SVC_HTTP (concat s1))) = 2 /\ seg_dropped (impl_prog SVC_HTTP (fuel_for (concat s1))) s1 = W_GET_B.
-Proof. exact http_pipelined_refuted. Qed.
-
-(* http: the recorded payload is the first Read of the body *)
-Theorem C04_http_body_refuted :
-  exists s1 s2, concat s1 = concat s2 /\ run_impl SVC_HTTP s1 <> run_impl SVC_HTTP s2 /\
-                run_impl SVC_HTTP s1 = expected SVC_HTTP (concat s1).
-Proof. exact http_body_refuted. Qed.
-
-(* dns: behind the server's timeout wrapper nothing is reported, for any datagram;
-   on the bare datagram connection the query would be *)
-Theorem C04_dns_behind_wrapper_silent : forall segs, run_impl SVC_DNS segs = ([], 0%N).
-Proof. exact dns_wrapped_silent. Qed.
-
-Theorem C04_dns_refuted :
-  run_impl SVC_DNS [W_DNS] <> expected SVC_DNS W_DNS /\ run_impl SVC_DNS_BARE [W_DNS] = expected SVC_DNS W_DNS.
-Proof. exact dns_refuted. Qed.
-
-(* ---- non-vacuity ---- *)
+(* ---- non-vacuity: the former defect witnesses now read correctly in every segmentation shown ---- *)
 Example C04_ftp_nonvacuous :
   run_impl SVC_FTP [[85;83;69;82;32;97;13;10;83;89]%N; [83;84;13;10;81;85;73;84;13;10;78;79;79;80;13;10]%N] =
   ([mkEv EV_FTP [[85;83;69;82;32;97]%N]; mkEv EV_FTP [[83;89;83;84]%N]; mkEv EV_FTP [[81;85;73;84]%N]], 0%N).
@@ -128,11 +116,25 @@ Example C04_smtp_nonvacuous :
    mkEv EV_SMTP_MAIL [[46;120]%N ++ [10]%N]; mkEv EV_SMTP_LINE [[81;85;73;84]%N]].
 Proof. vm_compute. reflexivity. Qed.
 
-Example C04_outside_loss_nonvacuous :
-  let p := impl_prog SVC_HTTP (fuel_for (W_GET_A ++ W_GET_B)) in
-  str_clean p (W_GET_A ++ W_GET_B) = true /\ seg_dropped p [W_GET_A; W_GET_B] = [] /\
-  length (fst (seg_obs p [W_GET_A; W_GET_B])) = 2.
+Example C04_memcached_nonvacuous :
+  let s := [115;101;116;32;107;32;48;32;48;32;51;13;10;97;98;99;13;10;103;101;116;32;107;13;10]%N in
+  fst (run_impl SVC_MEMCACHED [s]) = fst (run_impl SVC_MEMCACHED [firstn 16 s; skipn 16 s]) /\
+  fst (run_impl SVC_MEMCACHED [s]) =
+  [mkEv EV_MC_CMD [[115;101;116;32;107;32;48;32;48;32;51]%N];
+   mkEv EV_MC_STORE [[115;101;116]%N; [107]%N; [48]%N; [48]%N; [51]%N; [97;98;99]%N];
+   mkEv EV_MC_CMD [[103;101;116;32;107]%N]].
+Proof. vm_compute. split; reflexivity. Qed.
+
+Example C04_http_nonvacuous :
+  let a := [71;69;84;32;47;97;32;72;84;84;80;47;49;46;49;13;10;72;111;115;116;58;32;104;13;10;13;10]%N in let b := [71;69;84;32;47;98;32;72;84;84;80;47;49;46;49;13;10;72;111;115;116;58;32;104;13;10;13;10]%N in let p := [80;79;83;84;32;47;112;32;72;84;84;80;47;49;46;49;13;10;72;111;115;116;58;32;104;13;10;67;111;110;116;101;110;116;45;76;101;110;103;116;104;58;32;54;13;10;13;10;97;98;99;100;101;102]%N in
+  length (fst (run_impl SVC_HTTP [a ++ b])) = 2 /\ length (fst (run_impl SVC_HTTP [a; b])) = 2 /\
+  fst (run_impl SVC_HTTP [firstn 51 p; skipn 51 p]) =
+  [mkEv EV_HTTP [[80;79;83;84]%N; [47;112]%N; [104]%N; [97;98;99;100;101;102]%N]].
 Proof. vm_compute. repeat split; reflexivity. Qed.
+
+Example C04_dns_nonvacuous :
+  run_impl SVC_DNS [[18;52;1;0;0;1;0;0;0;0;0;0;1;120;0;0;1;0;1]%N] = ([mkEv EV_DNS [[52;54;54;48]%N]], 0%N).
+Proof. vm_compute. reflexivity. Qed.
 
 Print Assumptions C04_read_until_depends_on_stream_only.
 Print Assumptions C04_take_depends_on_stream_only.
@@ -143,17 +145,18 @@ Print Assumptions C04_outside_read_and_reader_loss.
 Print Assumptions C04_ftp_full.
 Print Assumptions C04_smtp_full.
 Print Assumptions C04_redis_full.
+Print Assumptions C04_memcached_full.
+Print Assumptions C04_http_full.
+Print Assumptions C04_docker_full.
+Print Assumptions C04_elasticsearch_full.
 Print Assumptions C04_eos_full.
 Print Assumptions C04_ethereum_full.
+Print Assumptions C04_memcached_persistent.
+Print Assumptions C04_http_persistent.
 Print Assumptions C04_ftp_one_event_per_line_in_order.
 Print Assumptions C04_ftp_lines_partition_the_stream.
 Print Assumptions C04_ftp_fuel_suffices.
-Print Assumptions C04_reference_memcached_persistent.
-Print Assumptions C04_reference_http_persistent.
 Print Assumptions C04_tftp_each_datagram.
 Print Assumptions C04_counterstrike_each_datagram.
-Print Assumptions C04_memcached_storage_refuted.
-Print Assumptions C04_http_pipelined_refuted.
-Print Assumptions C04_http_body_refuted.
-Print Assumptions C04_dns_behind_wrapper_silent.
-Print Assumptions C04_dns_refuted.
+Print Assumptions C04_memcached_udp_each_datagram.
+Print Assumptions C04_dns_each_datagram.
